@@ -35,6 +35,7 @@ BASE = [
     ({"Y": 2, "A": 1}, {"C": 1, "B": 1}),
 ]
 SCALES = [-3, -2, -1, 2, 3]
+ELIM_BIG = [(33, 35), (63, 1), (40, 42), (97, 89), (128, 96), (1000, 999), (360, 84), (7, 1001), (64, 48), (101, 101)]
 
 
 def bounds(tier):
@@ -46,7 +47,7 @@ def chunks(tier):
     out = [("BFS", "fraction", i, b["depth_fraction"]) for i in range(len(BASE))]
     out += [("BFS", "symbolic", i, b["depth_symbolic"]) for i in range(len(BASE))]
     out += [("BFS", "partial", i, b["depth_symbolic"]) for i in range(len(BASE))]
-    out += [("ELIM", a) for a in range(-6, 7) if a != 0]
+    out += [("ELIM", a) for a in range(-6, 7) if a != 0] + [("ELIMBIG",)]
     out += [("CANCEL",), ("ASRX",), ("NEGH",)]
     return out
 
@@ -220,6 +221,11 @@ def _build(kind, start, hist):
         from collections import OrderedDict
 
         base = [Equilibrium(OrderedDict(sorted(r.items(), reverse=True)), OrderedDict(sorted(p.items(), reverse=True)), params[i]) for i, (r, p) in enumerate(BASE)]
+    elif kind == "partial":
+        # the sides given as collections.Counter (a dict subclass whose update() counts)
+        from collections import Counter
+
+        base = [Equilibrium(Counter(r), Counter(p), params[i]) for i, (r, p) in enumerate(BASE)]
     else:
         base = [Equilibrium(r, p, params[i]) for i, (r, p) in enumerate(BASE)]
     obj, m = base[start], _start_state(kind, start)
@@ -341,6 +347,11 @@ def _check_elim(res, a, b, shape, order):
         return
     ok = len(m) == 2 and all(int(x) == x and x != 0 for x in m) and m[0] * coef[0] + m[1] * coef[1] == 0
     comb = None
+    if ok and max(abs(int(x)) for x in m) > 10 ** 4:
+        # chempy's multipliers need not be the smallest ones (for 33 and 35 they have 16 digits): the combination would carry
+        # K**(10**16) — the arithmetic identity m0*a + m1*b = 0 decides, the combination itself is not formed
+        res.outcomes["elim-ok (huge multipliers: identity only)"] += 1
+        return
     if ok:
         try:
             comb = int(m[0]) * pair[0] + int(m[1]) * pair[1]
@@ -480,6 +491,13 @@ def run_chunk(chunk, tier):
                     for order in (0, 1):
                         _check_elim(res, a, b, shape, order)
         res.sample(dict(kind="eliminate", a=a, b="-6..6"))
+    elif chunk[0] == "ELIMBIG":
+        # large coefficients of the eliminated species (two and three digits, common factors, one side 1)
+        for a, b in ELIM_BIG:
+            for sa, sb in ((1, 1), (1, -1), (-1, 1)):
+                for order in (0, 1):
+                    _check_elim(res, sa * a, sb * b, 0, order)
+        res.sample(dict(kind="eliminate", pairs=ELIM_BIG))
     elif chunk[0] == "CANCEL":
         _check_cancel(res)
     else:
